@@ -205,7 +205,17 @@ func c10WorldCase(t *testing.T, id int, r *Rng, out *Out) {
 	main := "refs/heads/main"
 	b := NewWorldBuilder(t)
 	p := basePolicy()
-	p.Files[0].Rules = append(p.Files[0].Rules, RuleSpec{Name: "protect-src", Patterns: []string{"file:src/*"}, Principals: []int{1003}, Threshold: 1})
+	srcPats := []string{"file:src/*"}
+	srcOwners := []int{1003}
+	switch x := r.Intn(100); {
+	case x < 20: // one rule for several directories: the paths of one commit share a verifier
+		srcPats = []string{"file:src/*", "file:docs/*"}
+	case x < 35:
+		srcPats, srcOwners = []string{"file:*"}, []int{1002, 1003}
+	}
+	if !r.Chance(12) { // sometimes no delegation rule protects any file (global rules may)
+		p.Files[0].Rules = append(p.Files[0].Rules, RuleSpec{Name: "protect-src", Patterns: srcPats, Principals: srcOwners, Threshold: 1})
+	}
 	if r.Chance(40) {
 		owner := []int{1002, 1003}[r.Intn(2)]
 		p.Files[0].Rules = append(p.Files[0].Rules, RuleSpec{Name: "protect-lib", Patterns: []string{"file:lib/*"}, Principals: []int{owner}, Threshold: 1})
